@@ -370,6 +370,10 @@ func (p probe) msg(id uint16) *dns.Msg {
 type monitor struct {
 	r      *vkit.Run
 	matrix map[string]int64
+	// alias is set while a cache-alias history runs: caches are NOT cleared
+	// between its steps and every request verdict is also compared with the
+	// verdict of the cache-off twin storage.
+	alias *aliasHist
 }
 
 func (mo *monitor) pair(winner string, cands []string) (losers []string) {
@@ -394,14 +398,15 @@ func TestCheck(t *testing.T) {
 		"grammar (||d^, @@||d^, $dnstype, $dnsrewrite=ip|cname|REFUSED|NXDOMAIN, hosts-style) with ~50 forced overlap scenarios + noise, served over HTTP to a real " +
 		"filterstorage.Default; per world 6 profile configurations (one per blocking shape) + 2 anonymous filtering-group configurations with random switches; " +
 		"per configuration one probe per base name with random subdomain/case/qtype/EDNS; every probe is evaluated at Storage.ForConfig (request and response verdict) " +
-		"and behind the full dnssvc stack. distinct = (winner class, sorted loser classes, blocking shape, qtype class, level); non-trivial = at least one losing " +
+		"and behind the full dnssvc stack; per cache-enabled world and configuration up to 10 cache-alias histories (fresh host asked for two qtypes congruent mod 256, "+
+		"e.g. A/CAA/DLV, in both orders, no cache clearing, each step also compared with a cache-off twin storage). distinct = (winner class, sorted loser classes, blocking shape, qtype class, level); non-trivial = at least one losing " +
 		"candidate source matched the same probe (a precedence decision was actually made)")
 	r.Assume("the safety filters (hash-prefix and safe-search) act on A, AAAA and HTTPS questions only (documented in hashprefix.isFilterable / safesearch.FilterRequest)")
 	r.Assume("a hash-prefix filter matches a name when the name or one of its parent domains (names here have <= 4 labels) is listed; safe-search rules '|d^' match exactly d")
 	r.Assume("$dnsrewrite=<ip> answers only questions of the address family of <ip>; other qtypes get an empty NOERROR answer (documented shorthand NOERROR;A|AAAA;<ip>)")
 	r.Assume("where an allow rule of the profile's own rules and one of a shared list both match, or different records of one upstream answer get different verdicts, " +
 		"the statement leaves the deciding rule open and either outcome is accepted (bucket ambiguous_*)")
-	r.Assume("hash-prefix result caches are cleared before every probe (their cross-requester behaviour is property C12)")
+	r.Assume("hash-prefix result caches are cleared before every ordinary probe (their cross-requester behaviour is property C12); they are not cleared inside a cache-alias history")
 
 	dir := os.Getenv("VERIF_SCRATCH")
 	if dir == "" {
@@ -464,6 +469,7 @@ func TestCheck(t *testing.T) {
 				mo.runProbe(w, c, st, srvs[c.Group], grps[c.Group], p, pi)
 			}
 		}
+		mo.runAliasHistories(w, cfgs, st, srvs, grps, r.Rand("alias", wi))
 		if es := w.errs.take(); len(es) > 0 {
 			r.Bucket("errcoll_during_probes", int64(len(es)))
 			r.Extra("errcoll_example", es[0])
@@ -486,6 +492,9 @@ func TestCheck(t *testing.T) {
 			r.Require("stack_blocked_"+ttl+"_"+s, 15)
 		}
 	}
+	r.Require("alias_histories_discriminating", int64(nWorlds*3))
+	r.Require("alias_histories_discriminating_shared_list_or_service", int64(nWorlds*2))
+	r.Require("alias_twin_comparisons", int64(nWorlds*9))
 	r.Require("configs_anonymous", 20)
 	r.Require("configs_filtering_disabled", 4)
 	r.Require("stack_disabled_passthrough", 100)
@@ -496,6 +505,111 @@ func TestCheck(t *testing.T) {
 	r.Require("resp_verdict_blocked", 40)
 	for _, pr := range requiredPairs {
 		r.Require("pair:"+pr, 6)
+	}
+}
+
+// ---- cache-alias histories ----
+//
+// The statement quantifies over ALL qtypes.  The rule-list, blocked-service,
+// safe-search and hash-prefix filters keep result caches keyed by (host, qtype,
+// class); a question must get the verdict of ITS qtype whatever was asked for
+// the same host before.  Each history asks one fresh host (never used by the
+// ordinary probes) for two qtypes that are congruent modulo 256 (and so differ
+// only in the high byte), in both orders, then the first one again, without
+// clearing any cache in between; every step is checked against the evaluator
+// and against the cache-off twin storage.
+
+type aliasHist struct {
+	Order string   `json:"order"`
+	Host  string   `json:"host"`
+	Steps []string `json:"steps_so_far"`
+}
+
+// aliasPairs: a common qtype and qtypes equal to it modulo 256 (CAA = 257,
+// DLV = 32769; the others are unassigned type codes, which a client may send).
+var aliasPairs = [][2]uint16{
+	{dns.TypeA, dns.TypeCAA}, {dns.TypeA, dns.TypeDLV}, {dns.TypeCAA, dns.TypeDLV},
+	{dns.TypeAAAA, dns.TypeAAAA + 256}, {dns.TypeAAAA, dns.TypeAAAA + 32768},
+	{dns.TypeTXT, dns.TypeTXT + 256}, {dns.TypeHTTPS, dns.TypeHTTPS + 256}, {dns.TypeMX, dns.TypeMX + 512},
+}
+
+func (mo *monitor) runAliasHistories(w *world, cfgs []*cfg, st *stack.Stack, srvs []*agd.Server, grps []*agd.ServerGroup, rng *rand.Rand) {
+	r := mo.r
+	if !w.CacheOn || w.ref == nil {
+		r.Bucket("alias_worlds_skipped_cache_off", 1)
+		return
+	}
+	type cand struct {
+		base   string
+		a, b   uint16
+		shared bool
+	}
+	n := 0
+	for _, c := range cfgs {
+		v := c.view(w)
+		if !v.Filtering || c.msgs == nil {
+			continue
+		}
+		// the view without the (uncached) custom rules: does a cached source decide differently for the two qtypes?
+		vs := *v
+		vs.Rules = nil
+		for _, s := range v.Rules {
+			if s.Class != "custom" {
+				vs.Rules = append(vs.Rules, s)
+			}
+		}
+		var disc, rest []cand
+		for _, base := range w.Names {
+			for _, pr := range aliasPairs {
+				for _, o := range [][2]uint16{{pr[0], pr[1]}, {pr[1], pr[0]}} {
+					h := "q." + base
+					x, _ := evalRequest(v, h, o[0])
+					y, _ := evalRequest(v, h, o[1])
+					if vkit.JSON(x) == vkit.JSON(y) {
+						rest = append(rest, cand{base, o[0], o[1], false})
+						continue
+					}
+					xs, _ := evalRequest(&vs, h, o[0])
+					ys, _ := evalRequest(&vs, h, o[1])
+					disc = append(disc, cand{base, o[0], o[1], vkit.JSON(xs) != vkit.JSON(ys)})
+				}
+			}
+		}
+		rng.Shuffle(len(disc), func(i, j int) { disc[i], disc[j] = disc[j], disc[i] })
+		rng.Shuffle(len(rest), func(i, j int) { rest[i], rest[j] = rest[j], rest[i] })
+		// prefer the histories in which a cached (shared) source makes the difference
+		var pick []cand
+		for _, pass := range []bool{true, false} {
+			for _, d := range disc {
+				if d.shared == pass && len(pick) < 8 {
+					pick = append(pick, d)
+				}
+			}
+		}
+		nd := len(pick)
+		if len(rest) > 2 {
+			rest = rest[:2]
+		}
+		pick = append(pick, rest...)
+		for i, d := range pick {
+			n++
+			host := fmt.Sprintf("q%d.%s", n, d.base)
+			h := &aliasHist{Order: dns.Type(d.a).String() + "-then-" + dns.Type(d.b).String(), Host: host}
+			mo.alias = h
+			for step, qt := range []uint16{d.a, d.b, d.a} {
+				h.Steps = append(h.Steps, dns.Type(qt).String())
+				mo.runProbe(w, c, st, srvs[c.Group], grps[c.Group], probe{QName: dns.Fqdn(host), Host: host, QType: qt}, 2000+step)
+				r.Bucket("alias_steps", 1)
+			}
+			mo.alias = nil
+			r.Bucket("alias_histories", 1)
+			if i < nd {
+				r.Bucket("alias_histories_discriminating", 1)
+				if d.shared {
+					r.Bucket("alias_histories_discriminating_shared_list_or_service", 1)
+				}
+			}
+		}
 	}
 }
 
@@ -572,6 +686,9 @@ func (mo *monitor) runProbe(w *world, c *cfg, st *stack.Stack, srv *agd.Server, 
 		}
 		wt["safety_lists_matching"] = sf
 		wt["upstream_answer"] = rrStrings(upstreamAnswer(p.QName, p.QType))
+		if mo.alias != nil {
+			wt["cache_alias_history"] = mo.alias
+		}
 		for k, x := range extra {
 			wt[k] = x
 		}
@@ -605,7 +722,9 @@ func (mo *monitor) runProbe(w *world, c *cfg, st *stack.Stack, srv *agd.Server, 
 			witness(nil))
 	}
 	if v.Filtering && c.msgs != nil {
-		w.hpCache.clearAll()
+		if mo.alias == nil {
+			w.hpCache.clearAll()
+		}
 		f := w.storage.ForConfig(ctx, c.fconf)
 		var err error
 		reqRes, err = f.FilterRequest(ctx, &filter.Request{DNS: p.msg(uint16(pi + 1)), Messages: c.msgs, RemoteIP: remote.Addr(),
@@ -613,6 +732,19 @@ func (mo *monitor) runProbe(w *world, c *cfg, st *stack.Stack, srv *agd.Server, 
 		if err != nil {
 			r.Violation("verdict:req:error", "FilterRequest returned an error for a legal question: "+err.Error(), witness(nil))
 			return
+		}
+		if mo.alias != nil && w.ref != nil {
+			// reference: the same question put to the cache-off twin
+			w.refHP.clearAll()
+			refRes, rerr := w.ref.ForConfig(ctx, c.fconf).FilterRequest(ctx, &filter.Request{DNS: p.msg(uint16(pi + 1)), Messages: c.msgs,
+				RemoteIP: remote.Addr(), Host: p.Host, QType: p.QType, QClass: dns.ClassINET})
+			r.Bucket("alias_twin_comparisons", 1)
+			if rerr != nil || vkit.JSON(observedOf(refRes)) != vkit.JSON(observedOf(reqRes)) {
+				r.Violation("cache-alias:req-verdict-differs-from-cache-off-twin:"+mo.alias.Order,
+					"after an earlier question for the same host whose qtype is congruent modulo 256, the storage with result caches on gives another "+
+						"request verdict than the same storage with the rule-list result caches off",
+					witness(map[string]any{"observed_cache_on": observedOf(reqRes), "observed_cache_off": observedOf(refRes), "expected": reqAlts}))
+			}
 		}
 		matched := -1
 		why := ""
@@ -679,7 +811,9 @@ func (mo *monitor) runProbe(w *world, c *cfg, st *stack.Stack, srv *agd.Server, 
 	}
 
 	// (2) the message written behind the full stack for this requester.
-	w.hpCache.clearAll()
+	if mo.alias == nil {
+		w.hpCache.clearAll()
+	}
 	sreq := &stack.Request{Server: srv, Group: grp, Msg: p.msg(uint16(1000 + pi)), Remote: remote,
 		Local: netip.AddrPortFrom(netip.AddrFrom4([4]byte{192, 0, 2, byte(1 + c.Group)}), 853)}
 	if !c.Anonymous {
@@ -875,6 +1009,9 @@ func finalProblem(kind string, v verdict, c *cfg, q dns.Question, p probe, got *
 		want := upstreamAnswer(p.QName, p.QType)
 		if !eqStrings(rrStrings(got.Answer), rrStrings(want)) || got.Rcode != dns.RcodeSuccess {
 			return "not-upstream-answer", "the answer is not the upstream answer for the question"
+		}
+		if ns := upstreamAuthority(p.QName, p.QType); len(ns) > 0 && !eqStrings(rrStrings(got.Ns), rrStrings(ns)) {
+			return "not-upstream-answer", "the authority section is not the upstream one (the question was not passed through)"
 		}
 		return "", ""
 	case "blocked":
